@@ -27,21 +27,29 @@ OptIdx(o) == (CASE o.mov = "STRICT" -> 0 [] o.mov = "NASM" -> 4 [] OTHER -> 8) +
 CodeOf(key, o) == CODES[key][OptIdx(o) + 1]
 OptName(v) == IF v = 0 THEN "STRICT" ELSE IF v = 1 THEN "NASM" ELSE IF v = 2 THEN "SMART" ELSE "BAD"
 
-RECURSIVE Concat(_, _)
-Concat(ss, j) == IF j > Len(ss) THEN <<>> ELSE ss[j] \o Concat(ss, j + 1)
+\* (range-halving recursions: see the remark at RunSeg in AsmMech.tla)
+RECURSIVE ConcatSeg(_, _, _)
+ConcatSeg(ss, lo, hi) == IF lo > hi THEN <<>> ELSE IF lo = hi THEN ss[lo] ELSE LET mid == (lo + hi) \div 2 IN ConcatSeg(ss, lo, mid) \o ConcatSeg(ss, mid + 1, hi)
+Concat(ss, j) == ConcatSeg(ss, j, Len(ss))
 
 (* -------- compare the bytes written with the layout the mechanism / the reference prescribes -------- *)
 \* items: <<[k, pos, len]>> ; codes: code of the j-th instruction item ; out: bytes from off0
-RECURSIVE LayoutWhy(_, _, _, _, _, _)
-LayoutWhy(items, codes, out, off0, j, nins) ==
-  IF j > Len(items) THEN ""
-  ELSE LET it == items[j]
+\* LaySeg: first complaint in items[lo..hi] given that nins instruction items precede them; [why, nins after]
+RECURSIVE LaySeg(_, _, _, _, _, _, _)
+LaySeg(items, codes, out, off0, lo, hi, nins) ==
+  IF lo > hi THEN [why |-> "", nins |-> nins]
+  ELSE IF lo = hi
+  THEN LET it == items[lo]
            a  == it.pos - off0 + 1
            b  == it.pos - off0 + it.len
-       IN IF b > Len(out) \/ a < 1 THEN "short-output"
+       IN IF b > Len(out) \/ a < 1 THEN [why |-> "short-output", nins |-> nins]
           ELSE IF it.k = "pad"
-               THEN (IF AllNops(SubSeq(out, a, b)) THEN LayoutWhy(items, codes, out, off0, j + 1, nins) ELSE "padding-is-not-nops")
-               ELSE (IF SubSeq(out, a, b) = codes[nins + 1] THEN LayoutWhy(items, codes, out, off0, j + 1, nins + 1) ELSE "instruction-bytes")
+               THEN [why |-> IF AllNops(SubSeq(out, a, b)) THEN "" ELSE "padding-is-not-nops", nins |-> nins]
+               ELSE [why |-> IF SubSeq(out, a, b) = codes[nins + 1] THEN "" ELSE "instruction-bytes", nins |-> nins + 1]
+  ELSE LET mid == (lo + hi) \div 2
+           x == LaySeg(items, codes, out, off0, lo, mid, nins)
+       IN IF x.why # "" THEN x ELSE LaySeg(items, codes, out, off0, mid + 1, hi, x.nins)
+LayoutWhy(items, codes, out, off0, j, nins) == LaySeg(items, codes, out, off0, j, Len(items), nins).why
 
 ItemsEnd(items, off0) == IF items = <<>> THEN off0 ELSE items[Len(items)].pos + items[Len(items)].len
 
